@@ -23,7 +23,6 @@ CONSTANTS
   Kinds <- MCKinds
   Threads <- MCThreads
   Sequential <- MCSequential
-  FaithfulGC <- MCFaithfulGC
   Preload <- MCPreload
 INIT Init
 NEXT Next
